@@ -144,7 +144,15 @@ pub fn c09(opts: &Opts, out: &mut Out) {
             for rep in 0..reps {
                 let mut inst = fmrun::random_inst(n, 1, 1 << ((rep + t + n.trailing_zeros() as usize) % 3), t, n + t + rep, true, &mut rng);
                 distinct_blindings(&mut inst, &mut rng);
-                let key = inst.describe();
+                // some configurations with degenerate masks / seeds: all zero, one zero component, all equal, seed 0 or 1
+                match (n.trailing_zeros() as usize + 2 * t + rep) % 7 {
+                    1 => inst.blindings[0] = vec![Scalar::ZERO; t],
+                    3 => inst.blindings[0][t - 1] = Scalar::ZERO,
+                    5 => inst.blindings[0] = vec![Scalar::from(9u8); t],
+                    6 => inst.seed = Some(if t % 2 == 0 { Scalar::ZERO } else { Scalar::ONE }),
+                    _ => {},
+                }
+                let key = format!("{} mask={}", inst.describe(), hlist(&inst.blindings[0]));
                 let stmt = inst.statement();
                 let kind = if (n + t + rep) % 3 == 0 { RngKind::Zero } else { RngKind::ChaCha(rng.next_u64()) };
                 tap::start();
